@@ -45,7 +45,7 @@ TInit ==
 Same(vs) == UNCHANGED vs
 Rest == UNCHANGED <<stopped, bestSet, nbatch, nchoice, nlearn, calDone, todo, got, cid, act, res, tid>>
 
-Expected(best) == IF best < envBest THEN ((envBest - best) * 4096) \div envBest ELSE 0
+Expected(best) == IF best < envBest /\ envBest # 0 THEN ((envBest - best) * 4096) \div envBest ELSE 0   \* (undefined at a zero reference: the code raises there)
 
 Apply(ev) ==
   /\ CASE ev.e = "sess" ->
